@@ -332,7 +332,7 @@ def run(ctx):
 
     cases = corpus_cases(ctx)
     ncorpus = len(cases)
-    nrand = 220 if quick else 6000
+    nrand = 130 if quick else 6000
     for i in range(nrand):
         cases.append(gen_case(rng, "m" if (quick or i % 4) else "l"))
     obs = run_engine(ctx, binp, cases, "seq")
@@ -360,7 +360,7 @@ def run(ctx):
 
     # ---- concurrent runs (support for the atomicity assumption)
     conc_fail = []
-    nconc = 6 if quick else 120
+    nconc = 4 if quick else 120
     ccases = []
     for _ in range(nconc):
         base = gen_case(rng, "l", named_p=0.2)
